@@ -336,6 +336,36 @@ class Facts:
                         rows.append(atom(b))
         return rows
 
+    def eval(self, c):
+        """three-valued evaluation of c from its leaves (assumed compound facts are not taken as given)"""
+        k = c[0]
+        if k == "true":
+            return True
+        if k == "false":
+            return False
+        if k == "not":
+            v = self.eval(c[1])
+            return None if v is None else (not v)
+        if k == "and":
+            r = True
+            for x in c[1:]:
+                v = self.eval(x)
+                if v is False:
+                    return False
+                if v is None:
+                    r = None
+            return r
+        if k == "or":
+            r = False
+            for x in c[1:]:
+                v = self.eval(x)
+                if v is True:
+                    return True
+                if v is None:
+                    r = None
+            return r
+        return self.decide(c)
+
     def saturate(self):
         """turn inequalities that the other facts force to equality into equalities (so that they take part
         in the substitution): g >= 0 assumed and -g >= 0 implied  =>  g == 0"""
@@ -356,7 +386,11 @@ class Facts:
         return changed
 
     def infeasible(self):
-        """the assumed facts contradict each other (linear reasoning; ne facts via forced equality)"""
+        """the assumed facts contradict each other (linear reasoning; ne facts via forced equality;
+        assumed compound conditions that evaluate to false from their leaves)"""
+        for c in self.raw:
+            if c[0] in ("or", "and", "not") and self.eval(c) is False:
+                return True
         rows = self._system()
         if _fm_infeasible(rows):
             return True
